@@ -224,7 +224,7 @@ func (g *Gen) obligeAt(kind, label, pos, pc, cond string) *Obl {
 		if parts := splitConj(cond, 0); len(parts) > 1 && len(parts) <= 600 {
 			var last *Obl
 			for i, p := range parts {
-				if o := g.obligeAt1(kind, fmt.Sprintf("%s/%d", label, i+1), pos, pc, p); o != nil {
+				if o := g.obligeAt1(kind, fmt.Sprintf("%s.%d", label, i+1), pos, pc, p); o != nil {
 					last = o
 				}
 			}
